@@ -71,7 +71,7 @@ class Gen:
         x = r.below(12)
         if x < 3: return f"fs write {r.choice([1, 3, 4, 5, 1024, 1025, 1025, 1500])}"
         if x < 5: return f"fs read {r.choice([1, 4, 5, 1024, 1025, 2000])}"
-        if x < 8: return "fs " + r.choice(["stat", "open", "close"])
+        if x < 8: return "fs " + r.choice(["stat", "open", "close", "stat", "open", "close", "stat missing", "open missing", "close bad"])
         if x < 9: return "getaddrinfo"
         if x < 10: return "getnameinfo"
         return "random"
@@ -154,7 +154,7 @@ class Gen:
                 return r.choice([f"advance {r.range(1, 30)}", "update_time", "now"])
             elif x < 90:
                 i = self.pick(("poll",))
-                if i is not None: return r.choice([f"make_readable h{i}", f"make_readable h{i}", f"drain h{i}"])
+                if i is not None: return r.choice([f"make_readable h{i}", f"make_readable h{i}", f"drain h{i}", f"peer_reset h{i}"])
             elif x < 95:
                 i = self.pick()
                 g = ["alive", "backend_timeout", "backend_timeout"]
@@ -417,6 +417,40 @@ class Gen:
         self.main += ["op close h0", "op close h1", "op run DEFAULT", "op run DEFAULT", "op loop_close"]
         return self.cfg + self.on + self.main
 
+    def build_poll_traffic(self):
+        """poll handles with traffic: readable / writable / both, and a pending socket error (peer gone with unread data:
+        EPOLLERR, reported to the callback as UV_EBADF) — the callback restarts / stops / closes the same handle and siblings"""
+        r = self.r
+        n = r.range(1, 3)
+        self.cfg += [f"config metrics {int(r.chance(1, 2))}", "config clock0 1000", f"config cblimit {r.range(6, 16)}"]
+        self.kinds += ["poll"] * n + [r.choice(["timer", "check", "idle"])]
+        self.main += ["op init poll"] * n + [f"op init {self.kinds[n]}"]
+        if r.chance(1, 2): self.main.append(f"op start h{n} {r.range(0, 3)} 0")
+        for i in range(n):
+            self.main.append(f"op start h{i} {r.choice([1, 1, 2, 3, 5, 9])} 0")
+            if r.chance(1, 4): self.main.append(f"op unref h{i}")
+        for i in range(n):
+            x = r.below(5)
+            if x < 3: self.main.append(f"op peer_reset h{i}")
+            elif x < 4: self.main.append(f"op make_readable h{i}")
+        for i in range(n):
+            for occ in range(2):
+                if r.chance(3, 4):
+                    j = r.below(n)
+                    ops = [r.choice([f"start h{i} {r.choice([1, 1, 2, 3])} 0", f"start h{i} 1 0", f"stop h{i}", f"close h{i}", f"start h{j} 1 0", f"stop h{j}",
+                                     f"close h{j}", "alive", f"is_active h{i}", f"drain h{i}", f"peer_reset h{j}", f"ref h{i}", f"unref h{i}"])
+                           for _ in range(r.range(1, 3))]
+                    self.on.append(f"on h{i} {occ} " + " ; ".join(ops))
+        for _ in range(r.range(1, 3)):
+            self.main.append("op run " + r.choice(["NOWAIT", "ONCE", "ONCE", "DEFAULT"]))
+            if r.chance(1, 3): self.main.append(f"op peer_reset h{r.below(n)}")
+            if r.chance(1, 3): self.main.append("op alive")
+        if r.chance(1, 3): self.main.append("op loop_close")
+        for i in range(len(self.kinds)):
+            self.main.append(f"op close h{i}")
+        self.main += ["op run DEFAULT", "op run DEFAULT", "op loop_close"]
+        return self.cfg + self.on + self.main
+
     def build_timer_population(self):
         """many timers (8..24: a heap three or more levels deep) started in random order, then stops / closes / restarts of
         arbitrary ones (inner nodes, deep leaves, the root) before the loop decides how long to block"""
@@ -516,6 +550,8 @@ class Gen:
             return self.build_failing_submissions()
         if r.chance(1, 6 if self.bias == "C01" else 12):
             return self.build_fs_requests()
+        if r.chance(1, 8 if self.bias == "C01" else 14):
+            return self.build_poll_traffic()
         if self.bias in ("C01", "C02") and r.chance(1, 10):
             return self.build_connects()
         if self.bias == "C02" and r.chance(1, 8):
@@ -665,6 +701,7 @@ class Mon:
         self.stop_ops = 0         # uv_stop() calls since the previous uv_run() returned
         self.wq_pending = None    # watcher_queue non-empty at the last uv_backend_timeout() call
         self.work_fifo = []       # submitted, not cancelled work requests in pool order
+        self.P = {}               # poll handle -> started (True / False / None = inside its error callback, before any call on it)
         self.sink = None          # datagrams received by the destination socket so far
         self.sent_ok = 0          # udp send callbacks that reported success
         self.route = {}           # request -> ring | pool | now (what libuv chose; `res rN route=` line before the op line)
@@ -704,7 +741,11 @@ class Mon:
                 o0 = last_obs
                 op = text[0]
                 hid = int(text[1][1:]) if len(text) > 1 and re.fullmatch(r"h\d+", text[1]) else None
+                if op in ("start", "stop", "close") and hid in self.P:
+                    # uv_poll_start(events != 0) makes the handle active, uv_poll_start(0) / uv_poll_stop / uv_close inactive
+                    self.P[hid] = (op == "start" and ret == 0 and int(text[2]) != 0)
                 if op == "init":
+                    if text[1] == "poll": self.P[ninit] = False
                     H[ninit] = dict(kind=text[1], closing=False, dead=False); self.kinds_used.add(text[1])
                     if text[1] == "timer": T[ninit] = dict(active=False, due=0, rep=0, hascb=False)
                     ninit += 1
@@ -919,6 +960,11 @@ class Mon:
                             # silence after uv_close: the handle's own callback must not run once uv_close has returned
                             self.bad("C02", "callback-after-close", f"`{kind}` callback of h{num} ran after uv_close(h{num}) had returned "
                                      "(before its close_cb)", i)
+                        if kind == "poll" and num in self.P and len(w) > 3 and int(w[3]) < 0:
+                            # an error is reported once and watching ends with it; whether the handle still looks active inside
+                            # the callback is not specified, what the callback then does with the handle is
+                            self.P[num] = None
+                            self.stats["poll_error_callbacks"] = self.stats.get("poll_error_callbacks", 0) + 1
                         if kind == "timer" and num in T:
                             t = T[num]
                             nxt = parse_obs(log[i + 1]) if i + 1 < n else None
@@ -983,7 +1029,9 @@ class Mon:
                 i += 1; continue
             if l == "endcb":
                 depth -= 1
-                if cbstack: cbstack.pop()
+                if cbstack:
+                    k_, n_ = cbstack.pop()
+                    if k_ == "poll" and self.P.get(n_, 0) is None: self.P[n_] = False     # the error callback left the handle alone: stopped
                 i += 1; continue
             if l.startswith("res "):
                 # resources_released: after the close callback of an fs_event handle its kernel watch is gone unless
@@ -1086,6 +1134,12 @@ class Mon:
         if not (owed <= o["ar"] <= owed_hi):
             self.bad("C01", "active-reqs-count", f"loop->active_reqs.count={o['ar']} but {owed}"
                      + (f"..{owed_hi}" if owed_hi != owed else "") + " requests are outstanding (callback owed / completion not yet processed)", i)
+        for h, st in self.P.items():
+            f = o["hs"].get(h)
+            if f is None or st is None: continue
+            if (f[0] == "A") != st:
+                self.bad("C01", "poll-active-vs-started", f"uv_is_active(h{h}) = {int(f[0] == 'A')} but the poll handle is "
+                         + ("started (uv_poll_start succeeded; no stop, close or reported error since)" if st else "not started (stopped / closed / error reported)"), i)
         live = {h for h, d in H.items() if not d["dead"]}
         if o["nh"] != len(live) or set(o["hs"]) != live:
             self.bad("C01", "handle-queue", f"uv_walk sees {o['nh']} handles, {len(live)} have no close_cb yet", i)
